@@ -3,6 +3,7 @@ import Pyunicorn.Lemmas.VisibilityBetw
 import Pyunicorn.Lemmas.VisibilityFloat
 import Pyunicorn.Lemmas.VisibilityF32
 import Pyunicorn.Lemmas.VisibilityDist
+import Pyunicorn.Lemmas.VisibilityScale
 import Pyunicorn.Generated.ArithC14
 /-!
 # C14 — visibility graphs realise the geometric visibility criterion
@@ -1378,5 +1379,128 @@ example : KeepsApart [some (1 / 3), none, some (2 / 3), some (1 / 3)] := by
   simp only [List.mem_cons, Option.some.injEq, List.not_mem_nil, or_false, reduceCtorEq,
     false_or] at ha hb
   rcases ha with rfl | rfl | rfl <;> rcases hb with rfl | rfl | rfl <;> decide +kernel
+
+/-! ## Round 5: the compiled arithmetic under power-of-two rescalings; a closed class of
+order-faithful data -/
+
+/-- what the decidable hypothesis `NoUflOn x t N a c` (evaluated by the driver, request `noufl`)
+says: seen from every left end `i`, the difference of the timings, the difference of two present
+samples and the rounded quotient are not subnormal (`⌊log₂|·|⌋ ≥ -126`, zero is fine), neither
+before nor after the rescaling by `2^c`, `2^a`, `2^(a-c)` -/
+theorem noUflOn_says (x : List Val) (t : List Rat) (N : Nat) (a c : Int) (h : NoUflOn x t N a c)
+    (i k : Nat) (hik : i < k) (hk : k < N) :
+    NoUfl (t.getD k 0 - t.getD i 0) c ∧
+    ∀ dx, vsub (valAt x k) (valAt x i) = some dx →
+      NoUfl dx a ∧ NoUfl (rndF32 dx / rndF32 (t.getD k 0 - t.getD i 0)) (a - c) :=
+  noUflOn_spec x t N a c h i k hik hk
+
+/-- **the float32 natural kernels are invariant under power-of-two rescalings** `x ↦ 2^a x`,
+`t ↦ 2^c t` — as an equality of results: the same write log *or the same error*
+(`ZeroDivisionError` for timings that tie after rounding, `IndexError` for short arrays), for
+every mask (both kernels), every `N` and every array length.  The scalar fact
+`rndF32_pow2_rescaling` lifted through the four bounds-checked reads and the zero test of
+`slopeR`, the short-circuit condition `condNR`, the `while` loop `scan` and the double loop.
+Closes "invariance of the whole float kernel" of round 4. -/
+theorem nvg_f32_pow2_invariant (x : List Val) (t : List Rat) (mv : Option (List Bool)) (N : Nat)
+    (a c : Int) (h : NoUflOn x t N a c) :
+    kernelNR rndF32 (scaleVals a x) (scaleTimes c t) mv N = kernelNR rndF32 x t mv N :=
+  kernelNR_scale x t mv N a c h
+
+/-- the hypothesis is decidable and not void: a 4-sample series with a missing sample and
+non-uniform timings, values scaled by `2^-100`, times by `2^-40` (by `2^40` the quotients
+`2^-140 Δx/Δt` would be subnormal: the second example) -/
+example : NoUflOn [some 3, none, some (1 / 2), some 7] [0, 1 / 4, 1, 3] 4 (-100) (-40) := by
+  decide +kernel
+example : ¬ NoUflOn [some 3, none, some (1 / 2), some 7] [0, 1 / 4, 1, 3] 4 (-100) 40 := by
+  decide +kernel
+/-- and it is needed: scaled down into the subnormal range (`2^-150`, last place `2^-149`) the
+slopes `3` and `7/2` of this series both round to `4 · 2^-150` and the float kernel loses the
+link `0 – 2` -/
+example : ¬ NoUflOn [some 0, some 3, some 7] [0, 1, 2] 3 (-150) 0 := by decide +kernel
+example : kernelNR rndF32 [some 0, some 3, some 7] [0, 1, 2] none 3
+      = .ok [(0, 2), (0, 1), (1, 2)] ∧
+    kernelNR rndF32 (scaleVals (-150) [some 0, some 3, some 7]) (scaleTimes 0 [0, 1, 2]) none 3
+      = .ok [(0, 1), (1, 2)] := by decide +kernel
+
+/-- **integer series on the default timings** (`|x_k| < 2^23`, at most `2^24` samples, any
+missing samples), rescaled by `2^a`, `2^c` with `a, c ≥ -126`, `a - c ≥ -102`: the hypothesis
+holds, so the float kernels return the same result — no hypothesis about the arithmetic left.
+(Overflow is outside the model: `a`, `c` are meant below the binary32 range.) -/
+theorem nvg_f32_pow2_invariant_integer_series (x : List Val) (hx : IntSeries x)
+    (mv : Option (List Bool)) (N : Nat) (hN : N ≤ 2 ^ 24) (a c : Int) (ha : -126 ≤ a)
+    (hc : -126 ≤ c) (hac : -102 ≤ a - c) :
+    kernelNR rndF32 (scaleVals a x) (scaleTimes c (defaultTimings N)) mv N
+      = kernelNR rndF32 x (defaultTimings N) mv N :=
+  kernelNR_scale x _ mv N a c (noUflOn_intSeries x hx N hN a c ha hc hac)
+
+/-- **small integer series are order-faithful**: `|x_k| ≤ B`, `B · N ≤ 2^22` (12-bit samples
+and 1024 of them, 8-bit samples and 16384 of them, …) on the default timings: two distinct slopes
+`Δx/Δt` differ by at least `1/(Δt Δt')`, more than the sum of their binary32 rounding errors
+(`rndF32_error`), and `rndF32` is monotone — so the hypothesis `Faithful` of
+`nvg_float32_eq_exact`, so far decided per series, is a theorem on this class -/
+theorem small_integer_series_faithful (x : List Val) (B : Int) (N : Nat) (hB : 1 ≤ B)
+    (hx : SmallInt x B) (hBN : B * (N : Int) ≤ 2 ^ 22) :
+    Faithful rndF32 x (defaultTimings N) N :=
+  faithful_smallInt x B N hB hx hBN
+
+/-- hence on such series **the natural kernels in binary32 arithmetic return exactly what the
+exact kernels return** (any mask, both kernels) … -/
+theorem nvg_f32_small_integer_series_exact (x : List Val) (B : Int) (hB : 1 ≤ B)
+    (hx : SmallInt x B) (hBN : B * (x.length : Int) ≤ 2 ^ 22) (mv : Option (List Bool)) :
+    kernelNR rndF32 x (defaultTimings x.length) mv x.length
+      = kernelN x (defaultTimings x.length) mv x.length :=
+  kernelNR_eq rndF32 x _ mv _ (Nat.le_refl _) (by simp [defaultTimings])
+    (faithful_smallInt x B _ hB hx hBN)
+
+/-- … and **realise the geometric criterion exactly** (not only as a subgraph, cf.
+`nvg_f32_integer_series`): the compiled arithmetic links `a < b` iff the two samples see each
+other — no hypothesis about the arithmetic -/
+theorem nvg_f32_small_integer_series_iff (x : List Val) (B : Int) (hB : 1 ≤ B)
+    (hx : SmallInt x B) (hBN : B * (x.length : Int) ≤ 2 ^ 22) :
+    ∃ log, kernelNR rndF32 x (defaultTimings x.length) (some (nanMask x)) x.length = .ok log ∧
+      ∀ a b, (a, b) ∈ log ↔ a < b ∧ b < x.length ∧ NVisible x (defaultTimings x.length) a b :=
+  nvg_float32_iff rndF32 x _ _
+    (defaultTimings_good x _ (by intro m hm; cases hm; simp [nanMask]))
+    (faithful_smallInt x B _ hB hx hBN)
+
+theorem smallInt_intSeries (x : List Val) (B : Int) (hB : 1 ≤ B) (hx : SmallInt x B)
+    (hBN : B * (x.length : Int) ≤ 2 ^ 22) : IntSeries x := by
+  intro r hr
+  obtain ⟨z, rfl, hz⟩ := hx r hr
+  refine ⟨z, rfl, ?_⟩
+  have hl : (1 : Int) ≤ (x.length : Int) := by
+    have := List.length_pos_of_mem hr
+    omega
+  have : B ≤ 2 ^ 22 := by nlinarith
+  omega
+
+/-- **the affine clause for the compiled arithmetic, closed form**: a small integer series in
+any power-of-two unit of the values and of the time axis (`a, c ≥ -126`, `a - c ≥ -102`) — the
+float32 kernel links exactly the pairs that see each other -/
+theorem nvg_f32_small_integer_series_rescaled_iff (x : List Val) (B : Int) (hB : 1 ≤ B)
+    (hx : SmallInt x B) (hBN : B * (x.length : Int) ≤ 2 ^ 22) (a c : Int) (ha : -126 ≤ a)
+    (hc : -126 ≤ c) (hac : -102 ≤ a - c) :
+    ∃ log, kernelNR rndF32 (scaleVals a x) (scaleTimes c (defaultTimings x.length))
+        (some (nanMask x)) x.length = .ok log ∧
+      ∀ p q, (p, q) ∈ log ↔ p < q ∧ q < x.length ∧ NVisible x (defaultTimings x.length) p q := by
+  have hN : x.length ≤ 2 ^ 24 := by
+    have : (x.length : Int) ≤ 2 ^ 22 := by nlinarith
+    omega
+  rw [nvg_f32_pow2_invariant_integer_series x (smallInt_intSeries x B hB hx hBN) _ _ hN a c ha hc
+    hac]
+  exact nvg_f32_small_integer_series_iff x B hB hx hBN
+
+example : SmallInt [some 3, none, some (-2), some 5] 5 := by
+  intro r hr
+  simp only [List.mem_cons, Option.some.injEq, List.not_mem_nil, or_false, reduceCtorEq,
+    false_or] at hr
+  rcases hr with rfl | rfl | rfl
+  · exact ⟨3, by norm_num, by norm_num⟩
+  · exact ⟨-2, by norm_num, by norm_num⟩
+  · exact ⟨5, by norm_num, by norm_num⟩
+/-- the bound is about the right size: with `B · N` a few powers of two larger the slopes
+`2^24` and `2^24 + 1` of `nvg_float32_iff`'s counterexample collapse -/
+example : ¬ Faithful rndF32 [some 0, some 16777216, some 33554434] (defaultTimings 3) 3 := by
+  decide +kernel
 
 end Pyunicorn.Visibility
